@@ -72,7 +72,7 @@ structure Lawful {μ κ : Type} (C : Crypto μ κ) : Prop where
   block_len : ∀ b, (C.block b).length = Gen.FrAesBlockSize
   enc_len : ∀ k b, (C.enc k b).2.length = b.length
   dec_len : ∀ k b, (C.dec k b).2.length = b.length
-  dec_wf : ∀ k b, (C.dec k b).2.WF
+  dec_wf : ∀ k b, b.WF → (C.dec k b).2.WF
   /-- decrypting what was encrypted from the same stream position gives the plain text and the same next position -/
   dec_enc : ∀ k b, C.dec k (C.enc k b).2 = ((C.enc k b).1, b)
   /-- a key stream is consumed left to right: one call on `a ++ b` = a call on `a`, then one on `b` -/
